@@ -59,7 +59,7 @@ pub fn sweep<const N: usize>(t: &mut Tape, c: &mut Case) -> CaseResult {
             eqw(&p4, &wr, "Int::shr_vartime", s)?;
             eqw(&p5, &wl, "Int << u32", s)?;
             eqw(&p6, &wr, "Int >> u32", s)?;
-        } else if s == bits || s == bits + 1 || s == 2 * bits + 1 || s == u32::MAX as u64 {
+        } else if s == bits || s == bits + 1 || s == 2 * bits + 1 || s == u32::MAX as u64 || (s > 2 * bits + 1 && (s & 63) <= 1 && (s >> 31 == 1 || s >> 16 == 1)) {
             panics_iff(guard(|| a.shl(s32)), true, &wl, "Int::shl", s)?;
             panics_iff(guard(|| a.shl_vartime(s32)), true, &wl, "Int::shl_vartime", s)?;
             panics_iff(guard(|| a.shr(s32)), true, &wr, "Int::shr", s)?;
